@@ -3,6 +3,7 @@ package c18
 import (
 	"bytes"
 	"fmt"
+	"net"
 	"net/netip"
 	"reflect"
 	"sync"
@@ -254,8 +255,79 @@ func namedProps() []rp.Prop {
 	return []rp.Prop{
 		rp.P[namedCase]{Name: "named", Checks: ev.Pick(300, 20000) / ev.Shards(), Gen: genNamed, Check: checkNamed},
 		rp.P[concCase]{Name: "concurrent", Checks: ev.Pick(4000, 200000) / ev.Shards(), Gen: genConcurrent, Check: checkConcurrent},
+		rp.P[macCase]{Name: "odd-length-mac", Sweep: sweepOddMAC, Check: checkOddMAC},
 	}
 }
 
 // TestAAANamed runs first: the declared layouts meet a cold codec.
 func TestAAANamed(t *testing.T) { rp.RunAll(t, namedProps()...) }
+
+// A raw MAC field (net.HardwareAddr) occupies 6 bytes of the message whatever the length of the value it holds (net.ParseMAC
+// also returns 8-byte EUI-64 and 20-byte InfiniBand addresses): the encoding never writes outside the field - every other
+// byte is what the other fields put there, or zero - and never panics.
+type macCase struct {
+	Off   int    `json:"off"`
+	Len   int    `json:"len"`
+	After bool   `json:"neighbour_declared_first"` // the field that follows the MAC in the message is declared BEFORE it in the struct
+	Value uint32 `json:"neighbour"`
+}
+
+func checkOddMAC(c macCase) *rp.Fail {
+	ev.Case("rawmac/odd-length", c.Len != 6, fmt.Sprintf("%+v", c))
+	mac := make([]byte, c.Len)
+	for i := range mac {
+		mac[i] = byte(0x61 + i)
+	}
+	fields := []reflect.StructField{{Name: "MsgType", Type: reflect.TypeOf(types.MsgType(0)), Tag: `uhppote:"value:0x94"`}}
+	macField := reflect.StructField{Name: "MAC", Type: reflect.TypeOf(net.HardwareAddr{}), Tag: reflect.StructTag(fmt.Sprintf(`uhppote:"offset:%d"`, c.Off))}
+	nOff := c.Off + 6
+	hasNeighbour := nOff+4 <= 64
+	nField := reflect.StructField{Name: "Next", Type: reflect.TypeOf(uint32(0)), Tag: reflect.StructTag(fmt.Sprintf(`uhppote:"offset:%d"`, nOff))}
+	switch {
+	case hasNeighbour && c.After:
+		fields = append(fields, nField, macField)
+	case hasNeighbour:
+		fields = append(fields, macField, nField)
+	default:
+		fields = append(fields, macField)
+	}
+	v := reflect.New(reflect.StructOf(fields))
+	v.Elem().FieldByName("MAC").Set(reflect.ValueOf(net.HardwareAddr(mac)))
+	want := make([]byte, 64)
+	want[0], want[1] = 0x17, 0x94
+	if hasNeighbour {
+		v.Elem().FieldByName("Next").SetUint(uint64(c.Value))
+		le32(want, nOff, c.Value)
+	}
+	var enc []byte
+	var err error
+	if p := try(func() { enc, err = codec.Marshal(v.Interface()) }); p != nil {
+		return rp.Failf("codec.Marshal/panic", "a %d-byte MAC value at offset %d: Marshal panicked: %v", c.Len, c.Off, p)
+	}
+	if err != nil {
+		return nil // refusing the value is fine
+	}
+	for i := range enc {
+		if i >= c.Off && i < c.Off+6 {
+			continue // what a value of another length than 6 leaves inside its own field is not judged
+		}
+		if enc[i] != want[i] {
+			return rp.Failf("codec.Marshal/writes-outside-fields", "a %d-byte MAC value in the field at offset %d..%d: byte %d of the encoding is %02x, want %02x\n  %x", c.Len, c.Off, c.Off+5, i, enc[i], want[i], enc)
+		}
+	}
+	return nil
+}
+
+func sweepOddMAC(yield func(macCase) bool) {
+	idx := 0
+	for _, n := range []int{0, 1, 5, 6, 7, 8, 20, 64, 100} {
+		for off := 2; off+6 <= 64; off++ {
+			for _, after := range []bool{false, true} {
+				idx++
+				if ev.Mine(idx) && !yield(macCase{Off: off, Len: n, After: after, Value: 0xa1b2c3d4}) {
+					return
+				}
+			}
+		}
+	}
+}
